@@ -8,15 +8,15 @@ for d in "${dirs[@]}"; do
   d=${d%/}; [ -f "$d/patch.diff" ] || continue
   prop=$(python3 -c "import json,sys;print(json.load(open('$d/meta.json'))['property'])")
   if ! git -C /repo apply --check "$PWD/$d/patch.diff" 2>/dev/null; then
-    if git -C /repo apply --3way "$PWD/$d/patch.diff" >/dev/null 2>&1; then :; else echo "$d ($prop): PATCH DOES NOT APPLY"; git -C /repo checkout -- . ; continue; fi
+    if false; then :; else echo "$d ($prop): PATCH DOES NOT APPLY"; git -C /repo reset -q --hard HEAD; continue; fi
   else
     git -C /repo apply "$PWD/$d/patch.diff"
   fi
-  if ! grep -q "\"$prop\"" engine/cmd/verif/defs.go; then echo "$d ($prop): no check yet"; git -C /repo checkout -- . ; git -C /repo reset -q; continue; fi
+  if ! grep -q "\"$prop\"" engine/cmd/verif/defs.go; then echo "$d ($prop): no check yet"; git -C /repo reset -q --hard HEAD; continue; fi
   out=$(timeout 1200 bin/verif check $prop --tier ${TIER:-quick} 2>&1); rc=$?
   v=$(echo "$out" | grep -c "^VIOLATION")
   echo "$d ($prop): exit=$rc violations=$v $(echo "$out" | grep -m1 "^  harness=" )"
   [ -n "$VERBOSE" ] && echo "$out" | tail -15
-  git -C /repo checkout -- . ; git -C /repo reset -q
+  git -C /repo reset -q --hard HEAD
 done
 git -C /repo status --short | head
